@@ -1,6 +1,7 @@
 """C19 unit drive: critical points found, classified, ordered and selected correctly."""
 
 import os
+import signal
 import sys
 import warnings
 
@@ -22,7 +23,20 @@ def quiet_call(fn, *a, **k):
         sys.stdout = old
 
 
+TRIAL_LIMIT_S = 600
+
+
+class TrialTimeout(BaseException):
+    pass
+
+
+def _on_alarm(signum, frame):
+    raise TrialTimeout()
+
+
 def main():
+    signal.signal(signal.SIGALRM, _on_alarm)
+    abandoned = []
     d, job = load_job()
     a = job["args"]
     rng = np.random.default_rng(int(a["seed"]))
@@ -34,128 +48,137 @@ def main():
     nexec = 0
     distinct = 0
     for t in range(int(a["trials"])):
-        nR = int(rng.choice([33, 49, 65, 97, 129]))
-        nZ = int(rng.choice([33, 65, 97]))
-        topo = str(rng.choice(["lsn", "usn", "cdn", "ldn", "udn", "udn2", "pair", "pair"]))
-        if t % 5 == 0:
-            topo = "pair"  # every shard drives the diagonal, strongly anisotropic saddle
-        if topo == "pair":
-            # two equal blobs at a random angle: the saddle between them has principal axes along /
-            # across that direction and a curvature ratio that grows with the separation
-            wq = float(rng.uniform(0.18, 0.22))
-            sep = float(rng.uniform(2.3, 3.6)) * wq
-            ang = float(rng.uniform(0, 2 * np.pi))
+        # a generous per-trial watchdog: one input on which the code under test does not come back
+        # must not hide what the other inputs of this shard show (abandoned trials -> inconclusive)
+        signal.alarm(TRIAL_LIMIT_S)
+        try:
+            nR = int(rng.choice([33, 49, 65, 97, 129]))
+            nZ = int(rng.choice([33, 65, 97]))
+            topo = str(rng.choice(["lsn", "usn", "cdn", "ldn", "udn", "udn2", "pair", "pair"]))
             if t % 5 == 0:
-                # principal axes near 45 degrees from R/Z, curvature ratio 2(a/w)^2-1 > 3.5
-                sep = float(rng.uniform(3.1, 3.6)) * wq
-                ang = float(np.radians(45.0 + 90.0 * int(rng.integers(0, 4)) + rng.uniform(-12, 12)))
-            cR, cZ = 1.5 + float(rng.uniform(-0.02, 0.02)), float(rng.uniform(-0.02, 0.02))
-            # the first blob sits nearest the domain centre (primary O-point)
-            cen = [[cR, cZ, 1.0, wq], [cR + sep * np.cos(ang), cZ + sep * np.sin(ang), 1.0, wq]]
-            # "all input resolutions above a minimum": at least five points per blob width (h <= 0.2 w)
-            nR = int(rng.choice([65, 97, 129]))
-            nZ = int(rng.choice([65, 97]))
-            e_ = {"topo": "custom", "centres": cen, "s": float(rng.choice([-1, 1])), "nR": nR, "nZ": nZ, "Rlim": [0.6, 2.4], "Zlim": [-0.9, 0.9], "angle_deg": float(np.degrees(ang))}
-        else:
-            e_ = None
-        e_ = e_ or {"topo": topo, "s": float(rng.choice([-1, 1])), "nR": nR, "nZ": nZ, "shift": [float(rng.uniform(-0.03, 0.03)), float(rng.uniform(-0.03, 0.03))], "w": float(rng.uniform(0.28, 0.32)), "a2": float(rng.uniform(0.9, 1.1)), "eps": float(rng.uniform(0.001, 0.02)), "Zlim": [-0.9, 0.9]}
-        fam = families.GaussFamily(e_)
-        R1D, Z1D, psi2D, psi1D, fpol1D, pres = fam.arrays()
-        R2, Z2 = np.meshgrid(R1D, Z1D, indexing="ij")
-        orO, orX = fam.critical_points()
-        hgrid = max(R1D[1] - R1D[0], Z1D[1] - Z1D[0])
-        # searched interior: find_critical scans i in 2..n-3
-        def interior(p):
-            return R1D[2] <= p[0] <= R1D[-3] and Z1D[2] <= p[1] <= Z1D[-3]
+                topo = "pair"  # every shard drives the diagonal, strongly anisotropic saddle
+            if topo == "pair":
+                # two equal blobs at a random angle: the saddle between them has principal axes along /
+                # across that direction and a curvature ratio that grows with the separation
+                wq = float(rng.uniform(0.18, 0.22))
+                sep = float(rng.uniform(2.3, 3.6)) * wq
+                ang = float(rng.uniform(0, 2 * np.pi))
+                if t % 5 == 0:
+                    # principal axes near 45 degrees from R/Z, curvature ratio 2(a/w)^2-1 > 3.5
+                    sep = float(rng.uniform(3.1, 3.6)) * wq
+                    ang = float(np.radians(45.0 + 90.0 * int(rng.integers(0, 4)) + rng.uniform(-12, 12)))
+                cR, cZ = 1.5 + float(rng.uniform(-0.02, 0.02)), float(rng.uniform(-0.02, 0.02))
+                # the first blob sits nearest the domain centre (primary O-point)
+                cen = [[cR, cZ, 1.0, wq], [cR + sep * np.cos(ang), cZ + sep * np.sin(ang), 1.0, wq]]
+                # "all input resolutions above a minimum": at least five points per blob width (h <= 0.2 w)
+                nR = int(rng.choice([65, 97, 129]))
+                nZ = int(rng.choice([65, 97]))
+                e_ = {"topo": "custom", "centres": cen, "s": float(rng.choice([-1, 1])), "nR": nR, "nZ": nZ, "Rlim": [0.6, 2.4], "Zlim": [-0.9, 0.9], "angle_deg": float(np.degrees(ang))}
+            else:
+                e_ = None
+            e_ = e_ or {"topo": topo, "s": float(rng.choice([-1, 1])), "nR": nR, "nZ": nZ, "shift": [float(rng.uniform(-0.03, 0.03)), float(rng.uniform(-0.03, 0.03))], "w": float(rng.uniform(0.28, 0.32)), "a2": float(rng.uniform(0.9, 1.1)), "eps": float(rng.uniform(0.001, 0.02)), "Zlim": [-0.9, 0.9]}
+            fam = families.GaussFamily(e_)
+            R1D, Z1D, psi2D, psi1D, fpol1D, pres = fam.arrays()
+            R2, Z2 = np.meshgrid(R1D, Z1D, indexing="ij")
+            orO, orX = fam.critical_points()
+            hgrid = max(R1D[1] - R1D[0], Z1D[1] - Z1D[0])
+            # searched interior: find_critical scans i in 2..n-3
+            def interior(p):
+                return R1D[2] <= p[0] <= R1D[-3] and Z1D[2] <= p[1] <= Z1D[-3]
 
-        orO_i = [p for p in orO if interior(p)]
-        orX_i = [p for p in orX if interior(p)]
-        # scope restriction: X-points hidden behind a secondary O-point are dropped by design
-        prim = orO_i[0] if orO_i else None
-        nexec += 1
-        op, xp = quiet_call(critical.find_critical, R2, Z2, psi2D, 1e-6, 1000)
-        cls = "find_critical|%s|%s" % (topo if topo != "pair" else "pair(diagonal)" if 20 < (e_["angle_deg"] % 90) < 70 else "pair(axis-aligned)", "s+" if e_["s"] > 0 else "s-")
-        where = dict(e_)
-        distinct += 1
-        if len(samples) < 2:
-            samples.append({"family": e_, "oracle_O": orO_i, "oracle_X": orX_i, "code_O": [list(map(float, p)) for p in op], "code_X": [list(map(float, p)) for p in xp]})
+            orO_i = [p for p in orO if interior(p)]
+            orX_i = [p for p in orX if interior(p)]
+            # scope restriction: X-points hidden behind a secondary O-point are dropped by design
+            prim = orO_i[0] if orO_i else None
+            nexec += 1
+            op, xp = quiet_call(critical.find_critical, R2, Z2, psi2D, 1e-6, 1000)
+            cls = "find_critical|%s|%s" % (topo if topo != "pair" else "pair(diagonal)" if 20 < (e_["angle_deg"] % 90) < 70 else "pair(axis-aligned)", "s+" if e_["s"] > 0 else "s-")
+            where = dict(e_)
+            distinct += 1
+            if len(samples) < 2:
+                samples.append({"family": e_, "oracle_O": orO_i, "oracle_X": orX_i, "code_O": [list(map(float, p)) for p in op], "code_X": [list(map(float, p)) for p in xp]})
 
-        def visible(x):
-            # monotone psi along the straight line from the primary O-point (the code's filter)
-            rr = np.linspace(prim[0], x[0], 200)
-            zz = np.linspace(prim[1], x[1], 200)
-            pl = fam.psi(rr, zz)
-            if x[2] < prim[2]:
-                pl = -pl
-            return bool(np.all(np.diff(pl) > -1e-3 * (pl.max() - pl.min())))
+            def visible(x):
+                # monotone psi along the straight line from the primary O-point (the code's filter)
+                rr = np.linspace(prim[0], x[0], 200)
+                zz = np.linspace(prim[1], x[1], 200)
+                pl = fam.psi(rr, zz)
+                if x[2] < prim[2]:
+                    pl = -pl
+                return bool(np.all(np.diff(pl) > -1e-3 * (pl.max() - pl.min())))
 
-        orX_v = [x for x in orX_i if visible(x)]
-        acc.add("number of O-points found = analytic", cls, abs(len(op) - len(orO_i)), 0, where=where, sig="code %d oracle %d" % (len(op), len(orO_i)))
-        acc.add("number of X-points found = analytic (adjacent to the primary O-point)", cls, abs(len(xp) - len(orX_v)), 0, where=where, sig="code %d oracle %d" % (len(xp), len(orX_v)))
-        for code, orc, nm in ((op, orO_i, "O"), (xp, orX_v, "X")):
-            for c in code:
-                if not orc:
-                    continue
-                dd = min(np.hypot(c[0] - q[0], c[1] - q[1]) for q in orc)
-                acc.add("%s-point position (units of the input spacing)" % nm, cls, dd / hgrid, 0.05, where=where)
-            # each analytic point returned exactly once
-            for q in orc:
-                k = sum(1 for c in code if np.hypot(c[0] - q[0], c[1] - q[1]) < 0.5 * hgrid)
-                acc.add("each %s-point returned exactly once" % nm, cls, abs(k - 1), 0, where=where)
-        if op and orO_i:
-            acc.add("primary O-point = the one nearest the domain centre", cls, np.hypot(op[0][0] - orO_i[0][0], op[0][1] - orO_i[0][1]) / hgrid, 0.05, where=where)
-            pa = op[0][2]
-            order = [abs(x[2] - pa) for x in xp]
-            acc.add("X-points ordered by |psi - psi_axis|", cls, 0.0 if all(order[i] <= order[i + 1] for i in range(len(order) - 1)) else 1.0, 0, where=where)
-        # gradient vanishes at the returned points to the requested tolerance (Bp^2 < atol)
-        for c in list(op) + list(xp):
-            gR, gZ = fam.grad(c[0], c[1])
-            hRR, hRZ, hZZ = fam.hess(c[0], c[1])
-            Hm = max(abs(hRR), abs(hRZ), abs(hZZ))
-            # the code stops at spline Bp^2 < 1e-6; at that point the analytic gradient is at most
-            # |Hessian| x (position error <= 0.05 h) away from zero
-            thr = 1e-5 + (1.5 * Hm * 0.05 * hgrid / c[0]) ** 2
-            acc.add("|Bp|^2 at returned points small (analytic gradient; bound from the position accuracy)", cls, (gR**2 + gZ**2) / c[0] ** 2, thr, where=where)
-        # ---- single/double-null decision and leg labelling --------------------------------
-        if topo in ("ldn", "udn", "udn2", "cdn", "lsn", "usn") and len(orX_v) >= 1 and nR >= 49:
-            pa_, pb_ = fam.psi_axis, fam.psi_bdry
-            pn2 = (orX_v[1][2] - pa_) / (pb_ - pa_) if len(orX_v) > 1 else None
-            for trial_sol in ([pn2 - 0.004, pn2 + 0.004] if (pn2 is not None and 1.008 < pn2 < 1.15) else [1.2]):
-                opts = dict(families.BASE)
-                opts.update(psinorm_sol=float(trial_sol), nx_inter_sep=1 if pn2 is not None else 0)
-                wall = families.make_wall({"kind": "box"})
-                nexec += 1
-                try:
-                    eq = quiet_call(tokamak.TokamakEquilibrium, R1D, Z1D, psi2D.copy(), psi1D.copy(), fpol1D.copy(), wall=wall, settings=opts)
-                except Exception as ex:
-                    acc.add("equilibrium with regions builds or refuses", "decision|refused", 0.0, 0.0, where=dict(where, psinorm_sol=trial_sol, exc=repr(ex)[:100]))
-                    continue
-                inside = [x for x in orX_v if 1.2 < x[0] < 1.8 and -0.5 < x[1] < 0.5]
-                exp_n = sum(1 for x in inside if (x[2] - pa_) / (pb_ - pa_) < trial_sol)
-                cls2 = "decision|%s" % ("double" if exp_n == 2 else "single")
-                acc.add("single/double null by X-points inside the wall and within psinorm_sol", cls2, abs(len(eq.x_points) - exp_n), 0, where=dict(where, psinorm_sol=trial_sol), sig="code %d oracle %d" % (len(eq.x_points), exp_n))
-                acc.add("psi_axis / psi_bdry of the equilibrium", cls2, max(abs(eq.psi_axis - pa_), abs(eq.psi_bdry - pb_)) / abs(pb_ - pa_), 1e-3 * (33.0 / min(nR, nZ)) ** 2, where=where)
-                # legs: inner strike point has the smaller major radius; first/last region point order
-                for name, r in eq.regions.items():
-                    if "divertor" not in name:
+            orX_v = [x for x in orX_i if visible(x)]
+            acc.add("number of O-points found = analytic", cls, abs(len(op) - len(orO_i)), 0, where=where, sig="code %d oracle %d" % (len(op), len(orO_i)))
+            acc.add("number of X-points found = analytic (adjacent to the primary O-point)", cls, abs(len(xp) - len(orX_v)), 0, where=where, sig="code %d oracle %d" % (len(xp), len(orX_v)))
+            for code, orc, nm in ((op, orO_i, "O"), (xp, orX_v, "X")):
+                for c in code:
+                    if not orc:
                         continue
-                    pts = r.points
-                    # the end that sits on the wall
-                    ends = [pts[0], pts[-1]]
-                    from .. import exactgeom as xg
+                    dd = min(np.hypot(c[0] - q[0], c[1] - q[1]) for q in orc)
+                    acc.add("%s-point position (units of the input spacing)" % nm, cls, dd / hgrid, 0.05, where=where)
+                # each analytic point returned exactly once
+                for q in orc:
+                    k = sum(1 for c in code if np.hypot(c[0] - q[0], c[1] - q[1]) < 0.5 * hgrid)
+                    acc.add("each %s-point returned exactly once" % nm, cls, abs(k - 1), 0, where=where)
+            if op and orO_i:
+                acc.add("primary O-point = the one nearest the domain centre", cls, np.hypot(op[0][0] - orO_i[0][0], op[0][1] - orO_i[0][1]) / hgrid, 0.05, where=where)
+                pa = op[0][2]
+                order = [abs(x[2] - pa) for x in xp]
+                acc.add("X-points ordered by |psi - psi_axis|", cls, 0.0 if all(order[i] <= order[i + 1] for i in range(len(order) - 1)) else 1.0, 0, where=where)
+            # gradient vanishes at the returned points to the requested tolerance (Bp^2 < atol)
+            for c in list(op) + list(xp):
+                gR, gZ = fam.grad(c[0], c[1])
+                hRR, hRZ, hZZ = fam.hess(c[0], c[1])
+                Hm = max(abs(hRR), abs(hRZ), abs(hZZ))
+                # the code stops at spline Bp^2 < 1e-6; at that point the analytic gradient is at most
+                # |Hessian| x (position error <= 0.05 h) away from zero
+                thr = 1e-5 + (1.5 * Hm * 0.05 * hgrid / c[0]) ** 2
+                acc.add("|Bp|^2 at returned points small (analytic gradient; bound from the position accuracy)", cls, (gR**2 + gZ**2) / c[0] ** 2, thr, where=where)
+            # ---- single/double-null decision and leg labelling --------------------------------
+            if topo in ("ldn", "udn", "udn2", "cdn", "lsn", "usn") and len(orX_v) >= 1 and nR >= 49:
+                pa_, pb_ = fam.psi_axis, fam.psi_bdry
+                pn2 = (orX_v[1][2] - pa_) / (pb_ - pa_) if len(orX_v) > 1 else None
+                for trial_sol in ([pn2 - 0.004, pn2 + 0.004] if (pn2 is not None and 1.008 < pn2 < 1.15) else [1.2]):
+                    opts = dict(families.BASE)
+                    opts.update(psinorm_sol=float(trial_sol), nx_inter_sep=1 if pn2 is not None else 0)
+                    wall = families.make_wall({"kind": "box"})
+                    nexec += 1
+                    try:
+                        eq = quiet_call(tokamak.TokamakEquilibrium, R1D, Z1D, psi2D.copy(), psi1D.copy(), fpol1D.copy(), wall=wall, settings=opts)
+                    except Exception as ex:
+                        acc.add("equilibrium with regions builds or refuses", "decision|refused", 0.0, 0.0, where=dict(where, psinorm_sol=trial_sol, exc=repr(ex)[:100]))
+                        continue
+                    inside = [x for x in orX_v if 1.2 < x[0] < 1.8 and -0.5 < x[1] < 0.5]
+                    exp_n = sum(1 for x in inside if (x[2] - pa_) / (pb_ - pa_) < trial_sol)
+                    cls2 = "decision|%s" % ("double" if exp_n == 2 else "single")
+                    acc.add("single/double null by X-points inside the wall and within psinorm_sol", cls2, abs(len(eq.x_points) - exp_n), 0, where=dict(where, psinorm_sol=trial_sol), sig="code %d oracle %d" % (len(eq.x_points), exp_n))
+                    acc.add("psi_axis / psi_bdry of the equilibrium", cls2, max(abs(eq.psi_axis - pa_), abs(eq.psi_bdry - pb_)) / abs(pb_ - pa_), 1e-3 * (33.0 / min(nR, nZ)) ** 2, where=where)
+                    # legs: inner strike point has the smaller major radius; first/last region point order
+                    for name, r in eq.regions.items():
+                        if "divertor" not in name:
+                            continue
+                        pts = r.points
+                        # the end that sits on the wall
+                        ends = [pts[0], pts[-1]]
+                        from .. import exactgeom as xg
 
-                    dw = [xg.dist_point_polyline((p.R, p.Z), wall + [wall[0]]) for p in ends]
-                    strike = ends[int(np.argmin(dw))]
-                    other = [rr for nn, rr in eq.regions.items() if "divertor" in nn and nn != name and (("lower" in nn) == ("lower" in name))]
-                    if other:
-                        o = other[0]
-                        oe = [o.points[0], o.points[-1]]
-                        ow = [xg.dist_point_polyline((p.R, p.Z), wall + [wall[0]]) for p in oe]
-                        ostrike = oe[int(np.argmin(ow))]
-                        ok = (strike.R < ostrike.R) == ("inner" in name)
-                        acc.add("legs labelled inner/outer by major radius of their strike points", cls2, 0.0 if ok else 1.0, 0, where=dict(where, region=name))
-                    acc.add("leg strike point lies on the wall", cls2, min(dw), 1e-6, where=dict(where, region=name))
-    write_out(d, {"records": acc.records(), "executions": nexec, "distinct": distinct, "samples": samples})
+                        dw = [xg.dist_point_polyline((p.R, p.Z), wall + [wall[0]]) for p in ends]
+                        strike = ends[int(np.argmin(dw))]
+                        other = [rr for nn, rr in eq.regions.items() if "divertor" in nn and nn != name and (("lower" in nn) == ("lower" in name))]
+                        if other:
+                            o = other[0]
+                            oe = [o.points[0], o.points[-1]]
+                            ow = [xg.dist_point_polyline((p.R, p.Z), wall + [wall[0]]) for p in oe]
+                            ostrike = oe[int(np.argmin(ow))]
+                            ok = (strike.R < ostrike.R) == ("inner" in name)
+                            acc.add("legs labelled inner/outer by major radius of their strike points", cls2, 0.0 if ok else 1.0, 0, where=dict(where, region=name))
+                        acc.add("leg strike point lies on the wall", cls2, min(dw), 1e-6, where=dict(where, region=name))
+        except TrialTimeout:
+            abandoned.append(t)
+        finally:
+            signal.alarm(0)
+    inconclusive = ["%d trial(s) abandoned after %d s each (normal: a few seconds): %s" % (len(abandoned), TRIAL_LIMIT_S, abandoned[:5])] if abandoned else []
+    write_out(d, {"records": acc.records(), "executions": nexec, "distinct": distinct, "samples": samples, "inconclusive": inconclusive})
 
 
 if __name__ == "__main__":
